@@ -22,3 +22,28 @@ CHECKS['C10'] = dict(
                      quick=[['--depth', 30, '--stateless', 4, '--deadline', 60]],
                      thorough=[['--depth', 30, '--k', 2, '--stateless', 5, '--deadline', 600]])],
 )
+
+def _c12_runs(depth, sdepth, k, dl, maxn):
+    runs = []
+    for kind in ('queue', 'stack'):
+        for d in (1, 0):
+            runs.append(['--kind', kind, '--dtor', d, '--maxn', maxn, '--depth', depth, '--stateless', sdepth, '--k', k, '--deadline', dl])
+    for cmp_ in (0, 1):
+        for d in (1, 0):
+            runs.append(['--kind', 'list', '--cmp', cmp_, '--dtor', d, '--maxn', maxn, '--depth', depth, '--stateless', sdepth, '--k', k, '--deadline', dl])
+    return runs
+
+
+CHECKS['C12'] = dict(
+    title='queue / stack / list disciplines',
+    rule='in-process BFS over the full API of each container (fresh element identity per insertion, one live iterator, '
+         'iterator edits at every position) against an array monitor; 4 probe suffixes (free, sentinel+drain, clear+reuse, '
+         'remove-all iterator pass) on every new state; state = (monitor state, last k ops)',
+    bounds=dict(quick='<=4 elements, BFS to fixpoint, k=1, stateless depth 5',
+                thorough='<=5 elements, BFS to fixpoint, k=2, stateless depth 7'),
+    assumptions=['containers are not mutated from outside while an iterator is live (iterator invalidation is a caller error)',
+                 'list: only {removals | insertions | insert,remove | remove,insert} between two itr_next calls (other mixes unspecified)'],
+    parts=[seqx_part('containers', 'c12_cont', ['structs', 'utils'],
+                     quick=_c12_runs(40, 5, 1, 100, 4),
+                     thorough=_c12_runs(40, 7, 2, 900, 5))],
+)
